@@ -579,5 +579,6 @@ func Scenarios(repo string) []Scenario {
 	out = append(out, edgeScenarios()...)
 	out = append(out, envStateScenarios()...)
 	out = append(out, valueStateScenarios()...)
+	out = append(out, objectHistoryScenarios()...)
 	return out
 }
